@@ -421,6 +421,22 @@ func checkC03(t *testing.T, env *report.Env, rep *report.Report) {
 		if len(ml.calls) != 0 || !bytes.Equal(after, s.File) {
 			fs.add("open-modifies-file", fmt.Sprintf("history %v: opening issued %v; bytes equal=%v", s.Hist, ml.calls, bytes.Equal(after, s.File)), s.Hist)
 		}
+		// the same file as it arrives from a backup or a copy (wider mode bits): opening is still read-only
+		for _, mode := range []os.FileMode{0o644, 0o640, 0o666} {
+			p3 := filepath.Join(dir, "restored")
+			os.Remove(p3)
+			os.WriteFile(p3, s.File, 0o600)
+			os.Chmod(p3, mode)
+			ml.calls = nil
+			vos.SetHook(ml)
+			_, err := db.Open(p3, KEK, hx.Discard())
+			vos.SetHook(nil)
+			roChecks++
+			after, _ := os.ReadFile(p3)
+			if err != nil || len(ml.calls) != 0 || !bytes.Equal(after, s.File) {
+				fs.add("open-modifies-file", fmt.Sprintf("history %v, file mode %o: opening issued %v; bytes equal=%v err=%v", s.Hist, mode, ml.calls, bytes.Equal(after, s.File), err), s.Hist)
+			}
+		}
 		// next-version counter: a put of a fresh value must get exactly the model's next number
 		for _, n := range []string{"a", "b"} {
 			m := s.Model.Clone()
